@@ -290,6 +290,7 @@ impl Engine {
         w.st.tx_index = sw.base_tx_index;
         w.zero_ibc_ok = sw.zero_ibc_ok;
         w.zero_tf_ok = sw.zero_tf_ok;
+        w.sub_second = sw.sub_second;
         let lst = format!("factory/{}/{}", w.setup.staking_addr, w.setup.subdenom);
         let cfg = MCfg {
             batch_period: sw.batch_period,
